@@ -21,7 +21,8 @@ import numpy as np
 
 from ..coqgen import B, C, L, N, NONE, Q, Some
 from ..fin import fm, T, D, err_class, magnitude
-from .c11 import DAY, GAPS, SHAPES, Qf, Z, _val, end_of_link, ghost_values, make_grid, set_memory
+from .c11 import (DAY, GAPS, SHAPES, Qf, Z, _val, consumer_grid, end_of_link, ghost_values, make_grid, set_memory,
+                  to_source_cells)
 from .c11 import coq_obs as _c11_coq_obs
 
 ID = "C12"
@@ -35,7 +36,8 @@ RULE = (
     "(incl. pulls exactly on publications, at the step position, 1us steps, pulls spanning several publications), the "
     "initial pull at the first publication time, and out-of-range pulls; AvgOverTime and SumOverTime, linear and "
     "step in {0,1/4,1/2,1,1/8,3/4,1/3,2/3,1/10,3/10}, per_time and absolute, initial_interval in {0,1us,1h,1d}, units "
-    "m/s, mm/d, m, dimensionless, 1/d, scalar and small gridded payloads; 40% of the gridded series have single "
+    "m/s, mm/d, m, dimensionless, 1/d, scalar and small gridded payloads; data shapes incl. grids with a degenerate axis; 30% of the gridded "
+    "consumers describe the grid with axes running the other way (cells matched by coordinates); 40% of the gridded series have single "
     "publications with one or two missing cells (NaN, or masked with FLEX info); a third of the series contain plateaus "
     "(the same payload, often zeros, published 3 or more times in a row); a quarter of the cases give the adapter a "
     "memory limit (0 / 1.5 payloads / huge) with one spill directory per worker process and are preceded by another "
@@ -167,16 +169,27 @@ def _gen_case(rng, i, malformed):
         pulled_later = True
     return {"adapter": adapter, "step": step, "per_time": per_time, "init": rng.choice(INITS) if adapter == "sum" else 0,
             "units": rng.choice(UNITS), "shape": shape, "exact": exact,
-            "mem": rng.choice([0, "mid", "huge"]) if rng.random() < 0.25 else None, "missing": missing, "ops": ops}
+            "mem": rng.choice([0, "mid", "huge"]) if rng.random() < 0.25 else None, "missing": missing,
+            "flip": [rng.random() < 0.6 for _ in shape] if (shape and rng.random() < 0.3) else None, "ops": ops}
 
 
 def _daily(vals):
     return [["push", d * DAY, [float(v)]] for d, v in enumerate(vals)]
 
 
-def _case(adapter, step, per_time, ops, units="mm/d", init=0, shape=None, exact=False, mem=None, missing=None):
+def _case(adapter, step, per_time, ops, units="mm/d", init=0, shape=None, exact=False, mem=None, missing=None, flip=None):
     return {"adapter": adapter, "step": step, "per_time": per_time, "init": init, "units": units,
-            "shape": shape or [], "exact": exact, "mem": mem, "missing": missing, "ops": ops}
+            "shape": shape or [], "exact": exact, "mem": mem, "missing": missing, "flip": flip, "ops": ops}
+
+
+def _layout_witness(adapter, step, per_time, flip, units="mm/d"):
+    """3 x 2 cells, every cell with its own series; the consumer's y (or x) axis runs the other way (seeded C12_m)"""
+    series = [[1, 4, 2, 8], [3, 3, 9, 1], [0, 5, 5, 2], [7, 1, 6, 6], [2, 8, 0, 3], [9, 2, 4, 5]]
+    ops = [["push", 0, [float(c[0]) for c in series]], ["pull", 0]]
+    for d in range(1, 4):
+        ops.append(["push", d * DAY, [float(c[d]) for c in series]])
+    ops += [["pull", DAY // 2], ["pull", DAY + DAY // 4], ["pull", 3 * DAY]]
+    return _case(adapter, step, per_time, ops, units=units, shape=[3, 2], flip=flip)
 
 
 def _missing_witness(adapter, step, per_time, missing, units="mm/d", mem=None):
@@ -205,6 +218,8 @@ def _plateau_series(stride, days=9, **kw):
 
 
 CORPUS = [
+    _layout_witness("sum", None, True, [False, True]), _layout_witness("sum", [3, 10], False, [False, True], units="mm"),
+    _layout_witness("sum", [0, 1], True, [True, False], units="m/s"), _layout_witness("avg", None, False, [True, True]),
     _missing_witness("avg", None, False, "nan"), _missing_witness("avg", [1, 2], False, "mask"),
     _missing_witness("sum", None, True, "mask"), _missing_witness("sum", [0, 1], True, "nan", units="m/s"),
     _missing_witness("sum", None, False, "nan", units="m"), _missing_witness("sum", [1, 4], False, "mask", units="m", mem=0),
@@ -271,8 +286,11 @@ def _run_link(case, ghost):
     set_memory(ada, case, n)
     out >> ada >> inp
     inp.ping()
+    # the consumer may describe the same grid in another (compatible) layout; what it receives for a cell,
+    # identified by the cell's coordinates, must be the integral of the series published for that cell
+    cgrid = consumer_grid(shape, case.get("flip")) if case.get("flip") else grid
     out.push_info(fm.Info(time=t0, grid=grid, units=case["units"]))
-    inp.exchange_info(fm.Info(time=t0, grid=grid, units=None))
+    inp.exchange_info(fm.Info(time=t0, grid=cgrid, units=None))
     ureg = fm.UNITS
     u_in = ureg.Unit(case["units"])
     scaled = case["adapter"] == "sum" and case["per_time"]
@@ -307,12 +325,12 @@ def _run_link(case, ghost):
                     dn = d.to(u_norm) if scaled else d
                     m = magnitude(dn)
                     if has_missing:
-                        raw = np.asarray(np.ma.getdata(m), dtype=float).reshape(-1)
-                        bits = [int(b or np.isnan(x)) for x, b in zip(raw, np.ma.getmaskarray(m).reshape(-1))]
+                        raw = to_source_cells(np.asarray(np.ma.getdata(m), dtype=float), grid, cgrid, shape)
+                        bits = [int(b or np.isnan(x)) for x, b in zip(raw, to_source_cells(np.ma.getmaskarray(m), grid, cgrid, shape))]
                         # a missing cell (masked or NaN) carries no value
                         pulls.append(["ok", [0.0 if b else float(x) for x, b in zip(raw, bits)], bits])
                         continue
-                    vals = [float(x) for x in np.asarray(m, dtype=float).reshape(-1)]
+                    vals = [float(x) for x in to_source_cells(np.asarray(m, dtype=float), grid, cgrid, shape)]
                     pulls.append(["ok", vals])
                 except Exception as e:  # noqa
                     pulls.append([err_class(e)])
@@ -524,6 +542,7 @@ def distribution(cases, obss):
     return {"adapters": dict(ad), "step_positions": dict(steps), "payload_shapes": dict(shapes), "source_units": dict(units),
             "delivered_units": dict(out_units), "pull_results": dict(res),
             "memory_limit": dict(Counter(str(c.get("mem")) for c in cases)),
+            "consumer_grid_layout_differs": sum(1 for c in cases if c.get("flip") and any(c["flip"])),
             "missing_values": dict(Counter(str(c.get("missing")) for c in cases)),
             "series_with_plateau_of_3_or_more": sum(1 for c in cases if _has_plateau(c)),
             "exact_dyadic_cases": sum(1 for c in cases if c["exact"])}
@@ -533,6 +552,6 @@ def shrink_candidates(case):
     ops = case["ops"]
     if case["shape"]:
         if not any(o[0] == "push" and len(o) > 3 for o in ops):
-            yield dict(case, shape=[], ops=[[o[0], o[1], o[2][:1]] if o[0] == "push" else o for o in ops])
+            yield dict(case, shape=[], flip=None, ops=[[o[0], o[1], o[2][:1]] if o[0] == "push" else o for o in ops])
     for i in range(len(ops) - 1, -1, -1):
         yield dict(case, ops=ops[:i] + ops[i + 1:])
